@@ -127,10 +127,10 @@ def shape_key(case):
     return "diffeq"
 
 
-def m2(ctx, al, cfg, maxlen, maxmem):
+def m2(ctx, al, module, cfg, maxlen, maxmem):
     d = tlc.scratch_dir("c04")
     dump = os.path.join(d, "states")
-    r = tlc.require_ok(tlc.run("FilterC04", cfg, dump=dump), "FilterC04", need_actions=("Step", "Refuse"))
+    r = tlc.require_ok(tlc.run(module, cfg, dump=dump), module, need_actions=("Step", "Refuse"))
     ctx.add_tlc(r, "Filter (C04 grid) register machine == difference equation")
     ns = maxlen + 1 + maxmem
     nstates = 0
@@ -237,9 +237,9 @@ def check(ctx):
                        "source text, so other Fractions would be evaluated as floats)",
                        "memories have at least the needed length (the property's quantifier)"]
     if ctx.thorough:
-        m2(ctx, al, "FilterC04_thorough.cfg", 4, 3)
+        m2(ctx, al, "FilterC04T", "FilterC04T.cfg", 4, 3)
         m3(ctx, al, 3000, 24, 6)
     else:
-        m2(ctx, al, "FilterC04_quick.cfg", 4, 3)
+        m2(ctx, al, "FilterC04Q", "FilterC04Q.cfg", 4, 3)
         m3(ctx, al, 300, 16, 5)
     ctx.exhaustive = True
